@@ -139,6 +139,76 @@ def run_thrust(hist):
         return [('machinery', f'{type(e).__name__}: {e}\n{traceback.format_exc()}')]
 
 
+def run_species(hist):
+    """One SpeciesMap.tla behaviour on real SpeciesValues objects."""
+    warnings.simplefilter('ignore')
+    try:
+        from AEIC.types import Species, SpeciesValues
+
+        objs, dicts = {}, {}
+        done = []
+
+        def obs(o):
+            return {'keys': [k.name for k in o.keys()], 'n': len(o)}
+
+        for k, e in enumerate(hist):
+            op, i, j, sname, v, want = e['op'], e['i'], e['j'], e['s'], e['v'], e['res']
+            try:
+                if op == 'new':
+                    objs[i] = SpeciesValues()
+                    got = obs(objs[i])
+                elif op == 'newd':
+                    dicts[i] = {}
+                    objs[i] = SpeciesValues(dicts[i])
+                    got = obs(objs[i])
+                elif op == 'share':
+                    dicts[i] = dicts[j]
+                    objs[i] = SpeciesValues(dicts[j])
+                    got = obs(objs[i])
+                elif op == 'dictset':
+                    dicts[i][Species[sname]] = float(v)
+                    got = obs(objs[i])
+                elif op == 'set':
+                    objs[i][Species[sname]] = float(v)
+                    got = obs(objs[i])
+                elif op == 'get':
+                    sp = Species[sname]
+                    inside = sp in objs[i]
+                    try:
+                        val = objs[i][sp]
+                        got = {'found': True, 'v': int(val)}
+                    except KeyError:
+                        got = {'found': False, 'v': 0}
+                    if inside != got['found']:
+                        got = f'`in` says {inside}, indexing says {got["found"]}'
+                elif op == 'update':
+                    objs[i].update(objs[j])
+                    got = obs(objs[i])
+                elif op == 'eq':
+                    a, b = objs[i] == objs[j], objs[j] == objs[i]
+                    c_ = objs[i].isclose(objs[j])
+                    got = {'equal': bool(a)} if (a == b == c_) else f'a == b is {a}, b == a is {b}, a.isclose(b) is {c_}'
+                elif op == 'show':
+                    got = obs(objs[i])
+                    r = repr(objs[i])
+                    if r != '<SpeciesValues: ' + ', '.join(got['keys']) + '>' or [x.name for x in objs[i]] != got['keys'] or len(list(objs[i].items())) != got['n']:
+                        got = f'repr {r} / iteration {[x.name for x in objs[i]]} disagree with keys() {got["keys"]}'
+                else:
+                    raise MachineryError(f'unknown op {op}')
+            except MachineryError:
+                raise
+            except Exception as ex:
+                got = f'raised {type(ex).__name__}: {ex}'
+            done.append((op, i, j, sname, v, got))
+            if got != want:
+                return [(f'speciesmap:{op}', f'operation {k} {op}(obj {i}, obj {j}, {sname}, {v}) gave {got!r}; specification: {want!r}; history {done}')]
+        return []
+    except Exception as e:
+        import traceback
+
+        return [('machinery', f'{type(e).__name__}: {e}\n{traceback.format_exc()}')]
+
+
 def run_phases(hist):
     """One TrajectoryPhases.tla behaviour on a real Trajectory (the walk continues on copies)."""
     warnings.simplefilter('ignore')
@@ -438,4 +508,13 @@ def run_x05(ctx: Ctx):
             ctx.violation(key, desc, c)
 
 
-EXTRAS = {'X01': run_x01, 'X02': run_x02, 'X03': run_x03, 'X04': run_x04, 'X05': run_x05}
+def run_x06(ctx: Ctx):
+    ctx.rule = 'every SpeciesMap.tla behaviour of length 4 (5): new / made from a dict the caller keeps / made from the dict of another object / written through the dict / set / get / update / == / keys-len-repr on up to 3 SpeciesValues objects over 3 species x 2 values'
+    ctx.assumptions += ['not a listed property: specification growth (DESIGN.md section 10)', 'scalar values only']
+    tlc.check(ctx, 'extras/SpeciesMap', 'extras/MC_SpeciesMap.cfg', workers=8)
+    hs = tlc.check(ctx, 'extras/SpeciesMap', 'extras/Gen_SpeciesMap.cfg', workers=4, sub=None if ctx.quick else {'D = 4': 'D = 5'})['emitted']
+    ctx.exhaustive = True
+    _replay(ctx, hs, run_species, 'speciesmap')
+
+
+EXTRAS = {'X01': run_x01, 'X02': run_x02, 'X03': run_x03, 'X04': run_x04, 'X05': run_x05, 'X06': run_x06}
